@@ -30,6 +30,7 @@ class Fn:
         self.stores = []      # (value, pointer, line)
         self.calls = []       # (callee or None, args, line, result)
         self.allocas = {}     # %name -> type text
+        self.rets = []        # returned operands
         self.dbg = {}
 
 
@@ -83,9 +84,13 @@ class Module:
                 cur.calls.append((tgt[1:] if tgt.startswith('@') else None, tgt, args, dbg, m.group(1)))
                 if m.group(1): cur.defs['%' + m.group(1)] = ('call', tgt)
                 continue
+            m = re.match(r'ret (?!void).*?((?:%|@)[\w.$]+|null|-?\d+)(?:,|$)', s)
+            if m: cur.rets.append(m.group(1)); continue
             m = re.match(r'%([\w.]+) = alloca (.+?),', s)
             if m: cur.allocas['%' + m.group(1)] = m.group(2); cur.defs['%' + m.group(1)] = ('alloca',); continue
             m = re.match(r'%([\w.]+) = load .+?, .+?\* (\S+?),', s)
+            if m and re.fullmatch(r'[%@][\w.$]+', m.group(2)): cur.defs['%' + m.group(1)] = ('load', m.group(2)); continue
+            m = re.match(r'%([\w.]+) = load (?:volatile )?.*\* ([%@][\w.$]+), align', s)      # types with commas (function pointers)
             if m: cur.defs['%' + m.group(1)] = ('load', m.group(2)); continue
             m = re.match(r'%([\w.]+) = getelementptr (?:inbounds )?.+?, .+?\* (\S+?),', s)
             if m: cur.defs['%' + m.group(1)] = ('gep', m.group(2)); continue
@@ -139,6 +144,18 @@ class Module:
                 else: out.add(('unknown', v))
             return out
         return {('unknown', v)}
+
+    def returns_fresh(self, fname, alloc=('malloc', 'calloc', 'realloc', 'strndup', 'strdup'), depth=0):
+        """does the function return only memory it allocated itself (or NULL)?  -> an allocator wrapper: what it returns
+        is the caller's own object"""
+        fn = self.functions.get(fname)
+        if fn is None or not fn.rets or depth > 3: return False
+        for r in fn.rets:
+            for b in self.bases(fn, r):
+                if b[0] == 'const': continue
+                if b[0] == 'call' and (b[1] in alloc or self.returns_fresh(b[1], alloc, depth + 1)): continue
+                return False
+        return True
 
     def store_targets(self, fn):
         """[(bases of the address, line, text)] for every store that is not the spill of a parameter or a write to a
